@@ -1,7 +1,7 @@
 (** C07 — Iterating and argument-routing modifiers equal their definitions.
     Property theorems only; every proof is [exact lemma]. *)
 From Coq Require Import List ZArith NArith Bool.
-From UV Require Import Model.Node Model.Sig Model.Exec Proofs.Routing.
+From UV Require Import Model.Node Model.Sig Model.Exec Proofs.Routing Proofs.IterSpec.
 From UV Require Import Model.Prims Model.Kernels Proofs.KernelsBase Proofs.KernelsAtoms Proofs.Kernels.
 Import ListNotations.
 
@@ -22,14 +22,12 @@ Theorem C07_kernel_empty_lead : forall a, In a [KId; KRev; KDeshape; KFix] ->
   forall d x i, wf x -> d <= length (ash x) -> first_zero (firstn d (ash x)) = Some i ->
   exists y, run_katom a d x = Ok y /\ firstn (S i) (ash y) = firstn (S i) (ash x).
 Proof. exact kernel_empty_lead. Qed.
-(** box: wherever box_depth does not meet empty rows at depth >= 2 *)
+(** box at depth d (row slicing of commit 3374592): equal to the definition, and a valid array *)
 Theorem C07_box_kernel_eq : forall d x, wf x -> lead_pos d (ash x) ->
-  (prodn (skipn (dmin d x) (ash x)) <> 0 \/ dmin d x <= 1) ->
   run_katom KBox d x = rows_iter d (sem FBox) x.
 Proof. exact box_kernel_eq. Qed.
-Theorem C07_box_kernel_eq_fixed : forall d x, wf x -> lead_pos d (ash x) ->
-  Ok (k_box_fixed d x) = rows_iter d (sem FBox) x.
-Proof. exact box_kernel_eq_fixed. Qed.
+Theorem C07_box_kernel_wf : forall d x, wf x -> wf (k_box false d x).
+Proof. exact box_kernel_wf. Qed.
 (** rows increments the kernel depth; end to end: the interpreter's rows^k F = the definition *)
 Theorem C07_rows_increments_depth : forall k f ks d, fast_fn f = Some (ks, d) ->
   fast_fn (rowsk k f) = Some (ks, k + d).
@@ -55,9 +53,14 @@ Theorem C07_reduce_minmax_shortcut_refuted_pre :
   exists x, wf x /\ ash x = [3%nat] /\
     k_reduce_minmax true true PMax 1 x <> rows_iter 1 (sem (FReduce PMax)) x.
 Proof. exact reduce_minmax_shortcut_refuted_pre. Qed.
-Theorem C07_inventory_pervasive_refuted :
-  exists f x, wf x /\ ash x = [2%nat] /\ exec_inventory f x <> inventory_def (sem f) x.
-Proof. exact inventory_pervasive_refuted. Qed.
+(** inventory with a purely pervasive operand boxes its results (compile-time split of commit f64950a) *)
+Theorem C07_inventory_pervasive_boxes : forall f x, forallb is_perv (rev (flatten f)) = true ->
+  exec_inventory false f x = inventory_def (sem f) x.
+Proof. exact inventory_pervasive_boxes. Qed.
+(** record of the defect repaired by f64950a (model of the code before it) *)
+Theorem C07_inventory_pervasive_refuted_pre :
+  exists f x, wf x /\ ash x = [2%nat] /\ exec_inventory true f x <> inventory_def (sem f) x.
+Proof. exact inventory_pervasive_refuted_pre. Qed.
 Theorem C07_below_rank_refuted :
   exists x, wf x /\ ash x = [2%nat] /\
     exec_mfn (rowsk 2 (FReduce PMax)) x <> sem (rowsk 2 (FReduce PMax)) x.
@@ -70,10 +73,11 @@ Theorem C07_first_depth_empty_refuted :
   exists x, wf x /\ exec_mfn (rowsk 1 FFirst) x = Err /\
     exists y, sem (rowsk 1 FFirst) x = Ok y /\ ash y = [0%nat].
 Proof. exact first_depth_empty_refuted. Qed.
-Theorem C07_box_depth_empty_rows_refuted :
-  exists x y, wf x /\ first_zero (firstn 2 (ash x)) = None /\
-    exec_mfn (rowsk 2 FBox) x = Ok y /\ ~ wf y /\ sem (rowsk 2 FBox) x <> Ok y.
-Proof. exact box_depth_empty_rows_refuted. Qed.
+(** record of the defect repaired by 3374592 (model of the code before it) *)
+Theorem C07_box_depth_empty_rows_refuted_pre :
+  exists x, wf x /\ first_zero (firstn 2 (ash x)) = None /\
+    ~ wf (k_box true 2 x) /\ Ok (k_box true 2 x) <> sem (rowsk 2 FBox) x.
+Proof. exact box_depth_empty_rows_refuted_pre. Qed.
 
 (** * argument routing: the final stack is the documented rearrangement *)
 Section R.
@@ -138,6 +142,39 @@ Section R.
     stk s = args ++ rest -> length args = sa sg -> runs fuel f s (args ++ args ++ rest) s2 (outs ++ args ++ rest) ->
     ends (exec (S fuel) (Mod MBelow [(sg, f)]) s) (outs ++ args ++ rest).
   Proof. exact (below_spec pknown psem arrsem unpacksem fmtsem asm). Qed.
+
+  (** the iterating modifiers of the spine (rows, each, inventory, table, tuples, reduce, scan, fold,
+      group, partition): operands that run alike - a named wrapper, added noise - are interchangeable *)
+  Theorem C07_iter_operand_ext : forall mk sg f f' fuel s, is_mapping mk = true ->
+    (forall st, exec fuel f st = exec fuel f' st) ->
+    exec (S fuel) (Mod mk [(sg, f)]) s = exec (S fuel) (Mod mk [(sg, f')]) s.
+  Proof. exact (iter_operand_ext pknown psem arrsem unpacksem fmtsem asm). Qed.
+  (** over an empty mapped axis the operand is never run *)
+  Theorem C07_iter_exec_zero : forall body tag na no fa fo s,
+    need na s = true ->
+    let vals := firstn na (stk s) in
+    let hdr := [SInt tag; SInt (Z.of_nat fa); SInt (Z.of_nat fo)] in
+    pknown ITER_N (hdr ++ vals) = true ->
+    psem ITER_N (fillctx s) (hdr ++ vals) = Some [SInt 0] ->
+    Exec.iter_exec pknown psem body tag na no fa fo s =
+      match psem ITER_OUT (fillctx s) (hdr ++ SInt (Z.of_nat na) :: vals ++ []) with
+      | Some outs => if Nat.eqb (length outs) no
+                     then Exec.Ok (set_stk s (outs ++ skipn na (stk s))) else Unk
+      | None => Exec.Err false (set_stk s (skipn na (stk s))) end.
+  Proof. exact (iter_exec_zero pknown psem). Qed.
+  (** on success the operand ran ITER_N times and exactly [so] results per run were assembled *)
+  Theorem C07_iter_exec_runs : forall body tag na no fa fo s s' n,
+    let vals := firstn na (stk s) in
+    let hdr := [SInt tag; SInt (Z.of_nat fa); SInt (Z.of_nat fo)] in
+    psem ITER_N (fillctx s) (hdr ++ vals) = Some [SInt n] ->
+    Exec.iter_exec pknown psem body tag na no fa fo s = Exec.Ok s' ->
+    exists s2 acc outs,
+      iter_loop body (fun i acc => psem ITER_ARG (fillctx s) (hdr ++ SInt i :: SInt (Z.of_nat na) :: vals ++ acc))
+                fa fo (Z.to_nat n) 0%Z (set_stk s (skipn na (stk s))) [] = (Exec.Ok s2, acc) /\
+      length acc = Z.to_nat n * fo /\
+      psem ITER_OUT (fillctx s) (hdr ++ SInt (Z.of_nat na) :: vals ++ acc) = Some outs /\
+      length outs = no /\ s' = set_stk s2 (outs ++ stk s2).
+  Proof. exact (iter_exec_runs pknown psem). Qed.
 End R.
 
 (** non-vacuity: premises are met on non-trivial instances, and the two sides are not trivially equal *)
@@ -157,17 +194,18 @@ Print Assumptions C07_kernel_eq_generic.
 Print Assumptions C07_blockwise_generic.
 Print Assumptions C07_kernel_empty_lead.
 Print Assumptions C07_box_kernel_eq.
-Print Assumptions C07_box_kernel_eq_fixed.
+Print Assumptions C07_box_kernel_wf.
 Print Assumptions C07_rows_increments_depth.
 Print Assumptions C07_exec_rows_atom_eq.
 Print Assumptions C07_rows_rows_compose.
 Print Assumptions C07_reduce_minmax_shortcut_repaired.
 Print Assumptions C07_reduce_minmax_shortcut_refuted_pre.
-Print Assumptions C07_inventory_pervasive_refuted.
+Print Assumptions C07_inventory_pervasive_boxes.
+Print Assumptions C07_inventory_pervasive_refuted_pre.
 Print Assumptions C07_below_rank_refuted.
 Print Assumptions C07_compose_below_rank_refuted.
 Print Assumptions C07_first_depth_empty_refuted.
-Print Assumptions C07_box_depth_empty_rows_refuted.
+Print Assumptions C07_box_depth_empty_rows_refuted_pre.
 Print Assumptions C07_fork_spec.
 Print Assumptions C07_bracket_spec.
 Print Assumptions C07_both_spec.
@@ -179,3 +217,6 @@ Print Assumptions C07_with_spec.
 Print Assumptions C07_off_spec.
 Print Assumptions C07_above_spec.
 Print Assumptions C07_below_spec.
+Print Assumptions C07_iter_operand_ext.
+Print Assumptions C07_iter_exec_zero.
+Print Assumptions C07_iter_exec_runs.
